@@ -533,7 +533,7 @@ func redactPipelineStage(stage interface{}, redactFieldNames bool, keyPath []str
 							isSelectivelyRedactable := isRedactableFieldPatternInArray(subVTyped)
 							newSubMap.Set(redactedSubK, redactArrayValues(subVTyped, redactFieldNames, inSearchStage, isSelectivelyRedactable, append(newKeyPath, subK)))
 						default:
-							newSubMap.Set(redactedSubK, redactScalarValue([]string{k}, subV, inSearchStage, false))
+							newSubMap.Set(redactedSubK, redactScalarValue(append(newKeyPath, subK), subV, inSearchStage, false))
 						}
 					}
 					newMap.Set(redactedKey, newSubMap)
